@@ -1056,6 +1056,30 @@ func init() {
 			}
 		}
 	})
+	// C10: WIF payloads whose last key byte looks like the compression flag (and its neighbours), every version edge
+	regExtra("C10", func(r *Runner) {
+		for i, last := range []byte{0x01, 0x00, 0x02, 0x01, 0xff, 0x01} {
+			k := r.bytesN(32)
+			k[0] &= 0x7f
+			k[31] = last
+			if i == 3 {
+				k = append(make([]byte, 31), 1) // the key 1
+			}
+			if i == 5 {
+				for j := range k {
+					k[j] = 1
+				}
+			}
+			for _, ver := range []int{128, 239, 0, 255, 176} {
+				for c := 0; c < 2; c++ {
+					r.Do("wif.enc", []string{hx(k), strconv.Itoa(ver), strconv.Itoa(c)}, "wif-enc-flag-like-last-byte", true, "")
+					if s, err := wifEncodeFor(k, byte(ver), c == 1); err == nil {
+						r.Do("wif.dec", []string{sx(s)}, "wif-dec-flag-like-last-byte", true, fmt.Sprintf("last key byte %#x, compressed %v", last, c == 1))
+					}
+				}
+			}
+		}
+	})
 	// C13: tweaks whose OUTPUT key has an x coordinate with a leading zero byte
 	regExtra("C13", func(r *Runner) {
 		found := 0
